@@ -226,7 +226,13 @@ def check(prop, tier, seed, replay=None):
                     eimpl, eerrs = core.run_cases(ex["cmd"], ex["cases"], workers=ex.get("workers"))
                     drv = core.drv_path(eng.DRIVER)
                     emodel = core.run_cases([drv] + eng.model_args(prop), ex["cases"])[0]
-                    espec = eng.run_trace_judge(prop, ex["cases"], eimpl) if eng.spec_args(prop) == "trace" else [None] * len(ex["cases"])
+                    esargs = eng.spec_args(prop)
+                    if esargs == "trace":
+                        espec = eng.run_trace_judge(prop, ex["cases"], eimpl)
+                    elif esargs is None:
+                        espec = [None] * len(ex["cases"])
+                    else:
+                        espec = core.run_cases([drv] + esargs, ex["cases"])[0]
                     efind = evaluate(eng, prop, ex["cases"], eimpl, emodel, espec, ex.get("projector"))
                     for f in efind[:3]:
                         f.name = ex["name"] + ": " + str(f.name)
